@@ -115,3 +115,122 @@ func VerifC03DispatcherBatchNeverOutlivesItsLeases() {
 		vrt.Cover("dispatcher.micro-batch")
 	}
 }
+
+// a real MemoryStore whose second Dequeue stops the dispatcher (the worker loop then leaves)
+type hStopStore struct {
+	*queue.MemoryStore
+	d     *PushDispatcher
+	calls int
+}
+
+func (s *hStopStore) Dequeue(req queue.DequeueRequest) (queue.DequeueResponse, error) {
+	s.calls++
+	if s.calls > 1 {
+		s.d.stopOnce.Do(func() { close(s.d.stopCh) })
+		return queue.DequeueResponse{}, nil
+	}
+	return s.MemoryStore.Dequeue(req)
+}
+
+type hStopDeliverer struct {
+	d        *PushDispatcher
+	stopAt   int // the stop signal arrives while delivery number stopAt (0-based) is in flight; -1: never during the batch
+	n        int
+	statuses []int
+	ids      []string
+}
+
+func (dl *hStopDeliverer) Deliver(ctx context.Context, del Delivery) Result {
+	if dl.n == dl.stopAt {
+		dl.d.stopOnce.Do(func() { close(dl.d.stopCh) })
+	}
+	code := []int{200, 503, 400}[vrt.Choose("delivery-status", 3)]
+	dl.statuses = append(dl.statuses, code)
+	dl.n++
+	return Result{StatusCode: code}
+}
+
+// verif:harness props=C05,C06 tier=quick native=yes weight=40
+// verif:bounds one real worker loop (runRoute, run in place) on a REAL MemoryStore holding as many ready messages as the micro-batch asks for (1..4), one target (batched lease mutations) or two (immediate mutations); every delivery answers 200 / 503 / 400; the stop signal (Drain) arrives while delivery k of the micro-batch is in flight, for every k, or not during the batch at all
+func VerifC05DispatcherStopLeavesNothingUnsettled() {
+	now := time.Unix(1700000000, 0)
+	ms := queue.NewMemoryStore(queue.WithNowFunc(func() time.Time { return now }))
+	batch := 1 + vrt.Choose("micro-batch", 4)
+	nt := 1 + vrt.Choose("targets", 2)
+	urls := []string{"https://a.example/h", "https://b.example/h"}
+	byURL := map[string]TargetConfig{}
+	for i := 0; i < nt; i++ {
+		byURL[urls[i]] = TargetConfig{URL: urls[i], Retry: RetryConfig{Type: "exponential", Max: 3, Base: time.Second, Cap: time.Minute}}
+	}
+	ids := []string{"m0", "m1", "m2", "m3"}[:batch]
+	for i, id := range ids {
+		ok := ms.Enqueue(queue.Envelope{ID: id, Route: "/r", Target: urls[i%nt], Payload: []byte("p")}) == nil
+		vrt.Assume(ok)
+	}
+	d := &PushDispatcher{Deliverer: nil}
+	d.stopCh = make(chan struct{})
+	st := &hStopStore{MemoryStore: ms, d: d}
+	dl := &hStopDeliverer{d: d, stopAt: vrt.Choose("stop-arrives-during-delivery", batch+1) - 1}
+	d.Store, d.Deliverer = st, dl
+	d.wg.Add(1)
+	d.runRoute(nil, "/r", byURL, 0, time.Minute, batch)
+	// what was delivered, in dequeue order
+	res, err := ms.ListMessages(queue.MessageListRequest{Limit: 10, Order: "asc"})
+	vrt.Assert("C05.stop.listing-ok", err == nil)
+	state := map[string]queue.Envelope{}
+	for _, it := range res.Items {
+		state[it.ID] = it
+	}
+	delivered := len(dl.statuses)
+	vrt.Assert("C05.stop.no-delivery-is-started-after-the-stop-was-seen", dl.stopAt < 0 || delivered == dl.stopAt+1)
+	settledOrRequeued := 0
+	for _, id := range ids {
+		env, present := state[id]
+		if !present {
+			settledOrRequeued++ // acked (no delivered retention)
+			continue
+		}
+		if env.State != queue.StateLeased {
+			settledOrRequeued++
+		}
+	}
+	// untouched leases go back at once; every delivered message is settled according to its result — nothing stays leased
+	// (repaired defect: the pending batched actions of a single-target micro-batch were dropped when the stop arrived mid-batch)
+	vrt.KnownFinding("C06-stop-drops-pending-batched-lease-actions", nt == 1 && dl.stopAt >= 0 && dl.stopAt < batch-1)
+	vrt.Assert("C05.stop.no-message-is-left-leased-when-the-worker-leaves", settledOrRequeued == batch)
+	if settledOrRequeued != batch {
+		return
+	}
+	order := []string{}
+	for _, id := range ids {
+		if _, present := state[id]; !present || state[id].State != queue.StateQueued || !state[id].NextRunAt.Equal(now) || state[id].Attempt != 1 {
+			continue
+		}
+		order = append(order, id)
+	}
+	vrt.Assert("C05.stop.untouched-messages-are-ready-again-immediately", len(order) >= batch-delivered)
+	acked, retried, dead := 0, 0, 0
+	for _, id := range ids {
+		env, present := state[id]
+		switch {
+		case !present:
+			acked++
+		case env.State == queue.StateDead:
+			dead++
+		case env.State == queue.StateQueued && env.NextRunAt.After(now):
+			retried++
+		}
+	}
+	w200, w503, w400 := 0, 0, 0
+	for _, c := range dl.statuses {
+		switch c {
+		case 200:
+			w200++
+		case 503:
+			w503++
+		default:
+			w400++
+		}
+	}
+	vrt.Assert("C06.stop.every-delivered-message-is-settled-by-its-result", acked == w200 && retried == w503 && dead == w400)
+}
